@@ -39,6 +39,10 @@ def run(ctx, report):
     report.section("scratch lists", scratch_lists, ctx, report, rs)
     from . import chain_fold
     report.section("reader objects used repeatedly", chain_fold.reader_reuse, ctx, report, "R-DOC-REUSE", "1")
+    from . import scc_e2e_fold
+    report.section("SCC reader reuse", scc_e2e_fold.run_part, ctx, report, "times", {
+        "reuse": ("R-DOC-REUSE", "1", "one SCC reader object reading a second document after a complete read and after an aborted one, "
+                                      "and a fresh reader: the caption sets share no caption, node, layout or style object")})
     from . import sami_reader_fold
     report.section("SAMI reader reuse", sami_reader_fold.run, ctx, report, {"reuse": ("R-DOC-REUSE", "1")})
     report.not_decided.append("equality of two result sets as such; behaviour of bs4 / html.parser / cssutils")
